@@ -15,8 +15,8 @@ import collections, datetime, os, random, sys
 import vcommon
 from vcommon import VERIF
 
-PROPS = ["Bee2V/C12/Props.lean", "Bee2V/C12/PropsPri.lean", "Bee2V/C12/PropsVal.lean", "Bee2V/C12/PropsEc2.lean", "Bee2V/C12/PropsVal2.lean", "Bee2V/C12/PropsPp.lean", "Bee2V/C12/PropsSprp.lean"]
-TARGETS = ["Bee2V.C12.Props", "Bee2V.C12.PropsPri", "Bee2V.C12.PropsVal", "Bee2V.C12.PropsEc2", "Bee2V.C12.PropsVal2", "Bee2V.C12.PropsPp", "Bee2V.C12.PropsSprp"]
+PROPS = ["Bee2V/C12/Props.lean", "Bee2V/C12/PropsPri.lean", "Bee2V/C12/PropsVal.lean", "Bee2V/C12/PropsEc2.lean", "Bee2V/C12/PropsVal2.lean", "Bee2V/C12/PropsPp.lean", "Bee2V/C12/PropsSprp.lean", "Bee2V/C12/PropsObj.lean"]
+TARGETS = ["Bee2V.C12.Props", "Bee2V.C12.PropsPri", "Bee2V.C12.PropsVal", "Bee2V.C12.PropsEc2", "Bee2V.C12.PropsVal2", "Bee2V.C12.PropsPp", "Bee2V.C12.PropsSprp", "Bee2V.C12.PropsObj"]
 
 
 def regen(ctx):
